@@ -544,6 +544,13 @@ class NCCHReader(TypeReaderCryptoBase):
 
         # the full-decrypted handler is done outside of the thread lock
         if region.section == NCCHSection.FullDecrypted:
+            # the content size comes from the header: never plan more 0x200-byte chunks than the file can hold
+            with self._lock:
+                available = self._file.seek(0, 2) - self._start
+            if offset + size > available:
+                size = available - offset
+            if size <= 0:
+                return b''
             before = offset % 0x200
             aligned_offset = offset - before
             aligned_size = size + before
